@@ -158,6 +158,13 @@ def _expr_simp_w(e):
 
 def _expr_simp(e):
     #print 'simp', e
+    if isinstance(e, ExprInt):
+        # constants are unsigned: the signed spelling of the same bits is the
+        # same constant, wherever it stands
+        t = tab_size_int.get(e.get_size())
+        if t is not None and not isinstance(e.arg, t):
+            return ExprInt(t(e.arg))
+        return e
     if isinstance(e, ExprOp):
         # merge associatif op
         # ((a+b) + c) => (a + b + c)
